@@ -259,11 +259,13 @@ class PyT1:
                 conv = v.left.func
                 if isinstance(conv, ast.Name) and conv.id == "int":
                     kind = f"(SKCast {caster})" if caster else "SKInt"
+                    if nm.startswith("_enum_field_proxy__"):
+                        if caster or d != 0:
+                            raise T1Error("enum proxy store with a caster or an index")
+                        nm = nm[len("_enum_field_proxy__"):]
+                        kind = "SKProxy"
                 else:
-                    if caster:
-                        raise T1Error("caster around an enum conversion")
-                    m2, en = self._resolve(mod, conv)
-                    kind = f"(SKEnum {clist(cz(x) for x in self.enum_members(m2, en))})"
+                    raise T1Error(f"bp_set_byte converts the chunk with {ast.unparse(conv)}, expected int")
             else:
                 raise T1Error(f"bp_set_byte statement {ast.dump(st)[:120]}")
             if name_of.get(num, nm) != nm:
